@@ -363,6 +363,40 @@ def run(ctx):
         ctx.violation(Finding('R-AUTOSCALE', RP, 'Pseudo2NetCDF', api.stmt_of(offs[0]), '%s: variables that carry scale_factor/add_offset are then stored unpacked-as-raw, and come back changed on reading' % norm(offs[0])))
     else:
         ctx.ok('R-AUTOSCALE', 'pncgen.py', 'src/PseudoNetCDF/%s' % RP, 'no set_auto_*(False)')
+    # the same on the reading side: the disk-backed file class never switches the conversion off for variables it hands out
+    fmod = ctx.src.mod('core/_files.py')
+    offs_r = [(q5, c) for q5, f5 in fmod.functions.items() if q5.startswith('netcdf.') for c in ast.walk(f5) if isinstance(c, ast.Call) and isinstance(c.func, ast.Attribute)
+              and c.func.attr in ('set_auto_maskandscale', 'set_auto_scale', 'set_auto_mask') and c.args and isinstance(c.args[0], ast.Constant) and c.args[0].value is False]
+    if offs_r:
+        ctx.violation(Finding('R-AUTOSCALE', 'core/_files.py', offs_r[0][0], api.stmt_of(offs_r[0][1]), '%s in the reader: masked cells of those variables come back as plain numbers holding the fill value' % norm(offs_r[0][1])))
+    else:
+        ctx.ok('R-AUTOSCALE', 'core/_files.py netcdf', 'src/PseudoNetCDF/core/_files.py netcdf', 'no set_auto_*(False)')
+    # ---- R-SYNCED: what was written is on disk when convert returns (the returned handle may stay open while the path is re-opened)
+    ctx.rule('R-SYNCED', 'convert (or the addVariables it calls) ends with a sync() of the destination')
+    # an unconditional one: a top-level statement of the function (a sync inside the per-variable loop or under an option does not
+    # cover the last variable / the default)
+    syncs = [q5 for q5 in ('Pseudo2NetCDF.convert', 'Pseudo2NetCDF.addVariables')
+             if any(isinstance(st, ast.Expr) and isinstance(st.value, ast.Call) and isinstance(st.value.func, ast.Attribute) and st.value.func.attr == 'sync' for st in mod.func(q5).body)]
+    if syncs:
+        ctx.ok('R-SYNCED', 'convert', 'src/PseudoNetCDF/%s Pseudo2NetCDF.convert' % RP, 'sync() in %s' % ', '.join(syncs))
+    else:
+        ctx.violation(Finding('R-SYNCED', RP, 'Pseudo2NetCDF.convert', cv.body[-1], 'neither convert nor addVariables syncs the destination: for the classic flavours the file on disk is incomplete (record count 0) '
+                              'as long as the handle returned by save() is alive'))
+    # ---- R-TYPECODE: a variable built from values reports the type of those values
+    ctx.rule('R-TYPECODE', 'PseudoNetCDFVariable built with values=: typecode() is the dtype char of the values on every path (the disk type is defined from typecode())')
+    vmod = ctx.src.mod('core/_variables.py')
+    vn = vmod.func('PseudoNetCDFVariable.__new__')
+    tcs = [st for st in iter_stmts(vn.body) if isinstance(st, ast.Assign) and any(isinstance(t, ast.Name) and t.id == 'typecode' for t in st.targets) and 'dtype.char' in norm(st.value)]
+    wv = 'src/PseudoNetCDF/core/_variables.py PseudoNetCDFVariable.__new__'
+    if not tcs:
+        ctx.undec('R-TYPECODE', 'typecode', wv, 'assignment typecode = <values>.dtype.char not found')
+    for st in tcs:
+        cond = [p_ for p_ in parent_chain(st) if isinstance(p_, ast.If) and 'typecode' in norm(p_.test)]
+        if cond:
+            ctx.violation(Finding('R-TYPECODE', 'core/_variables.py', 'PseudoNetCDFVariable.__new__', st, 'the type code follows the values only when `%s`: a variable declared as \'f\' and built from float64 values '
+                                  'keeps float64 data but answers typecode() == \'f\', so it is saved as float32' % norm(cond[0].test)))
+        else:
+            ctx.ok('R-TYPECODE', 'typecode', wv, norm(st))
     # ---- R-PARAMUSED: every option the converter accepts is read (a requested flavour/mode that is not forwarded silently becomes the default)
     ctx.rule('R-PARAMUSED', 'every parameter of the converter functions is read in the body (options are forwarded, not dropped)')
     npu = 0
